@@ -19,7 +19,7 @@
 (* Properties decided here: C01 C02 C03 C05 C06(writer level) C07 C11 C12 C13 C14 C16   *)
 (* C17 C18 at broker level.  Results the properties leave open are left open.           *)
 EXTENDS Integers, FiniteSets, Sequences, TLC, Json
-VARIABLES l, conn, vnow, subs, msgs, logs, acked, inq2, outf, deliv, need, owed, ret, tags, sweeps, dead, table, clears
+VARIABLES l, conn, vnow, subs, msgs, logs, acked, inq2, outf, deliv, need, owed, ret, tags, sweeps, dead, table, clears, faults, reach, faults, reach
 
 T == INSTANCE Topics
 R == INSTANCE Retained WITH RTopics <- {}, Payloads <- {}, ret <- <<>>
@@ -28,7 +28,7 @@ Q == INSTANCE AckQueue WITH Sess <- {}, Ids <- {}, Deadlines <- {}, Sweeps <- {}
 
 Trace == ndJsonDeserialize("trace.ndjson")
 Ev == Trace[l]
-vars == <<l, conn, vnow, subs, msgs, logs, acked, inq2, outf, deliv, need, owed, ret, tags, sweeps, dead, table, clears>>
+vars == <<l, conn, vnow, subs, msgs, logs, acked, inq2, outf, deliv, need, owed, ret, tags, sweeps, dead, table, clears, faults, reach>>
 Dom(f) == DOMAIN f
 ToSet(s) == {s[i] : i \in 1..Len(s)}
 Range(s) == {s[i] : i \in 1..Len(s)}
@@ -59,19 +59,21 @@ NeedOf(p) == [c \in {x \in Dom(conn) : Registered(x) /\ NMatch(x, p) > 0} |-> NM
 
 TInit == /\ TLCSet(1, 0) /\ l = 1 /\ conn = <<>> /\ vnow = 0 /\ subs = {} /\ msgs = <<>> /\ logs = <<>> /\ acked = {}
          /\ inq2 = <<>> /\ outf = <<>> /\ deliv = <<>> /\ need = <<>> /\ owed = <<>> /\ ret = <<>> /\ tags = <<>> /\ sweeps = <<>>
-         /\ dead = {} /\ table = {} /\ clears = {}
+         /\ dead = {} /\ table = {} /\ clears = {} /\ faults = {} /\ reach = <<>>
 
 
 \* ------------------------------------------------------------------ session life cycle
 New == /\ Ev.op = "new"
        /\ conn' = <<>> /\ vnow' = 0 /\ subs' = {} /\ msgs' = <<>> /\ acked' = {} /\ inq2' = <<>> /\ outf' = <<>> /\ deliv' = <<>>
-       /\ need' = <<>> /\ owed' = <<>> /\ ret' = <<>> /\ tags' = <<>> /\ sweeps' = <<>> /\ dead' = {} /\ clears' = {}
-       /\ logs' = [n \in ToSet(Ev.nodes) |-> <<>>]
+       /\ need' = <<>> /\ owed' = <<>> /\ ret' = <<>> /\ tags' = <<>> /\ sweeps' = <<>> /\ dead' = {} /\ clears' = {} /\ faults' = {} /\ reach' = <<>>
+       /\ logs' = [n \in ToSet(Ev.nodes) |->            \* a node may start on a log that already holds entries
+                    LET pf == {x \in ToSet(Ev.prefill) : x.n = n} IN
+                    IF pf = {} THEN <<>> ELSE [i \in 1..(CHOOSE x \in pf : TRUE).count |-> ""]]
        /\ table' = IF "table" \in DOMAIN Ev THEN ToSet(Ev.table) ELSE {}
 
 Open == /\ Ev.op = "conn.open" /\ Ev.c \notin Dom(conn)
         /\ conn' = Upd(conn, Ev.c, Fresh(Ev.c, Ev.n, Ev.s))
-        /\ UNCHANGED <<vnow, subs, msgs, logs, acked, inq2, outf, deliv, need, owed, ret, tags, sweeps, dead, table, clears>>
+        /\ UNCHANGED <<vnow, subs, msgs, logs, acked, inq2, outf, deliv, need, owed, ret, tags, sweeps, dead, table, clears, faults, reach>>
 
 \* CONNECT sent on a fresh connection: remember what was asked for; the will becomes a (not yet released) message
 SendConnect ==
@@ -82,7 +84,7 @@ SendConnect ==
              THEN Upd(msgs, Ev.will.p, [c |-> Ev.c, id |-> 0, q |-> Ev.will.q, t |-> Ev.will.t, r |-> Ev.will.r, mount |-> "",
                                          kind |-> "will", released |-> FALSE, failed |-> FALSE])
              ELSE msgs
-  /\ UNCHANGED <<vnow, subs, logs, acked, inq2, outf, deliv, need, owed, ret, tags, sweeps, dead, table, clears>>
+  /\ UNCHANGED <<vnow, subs, logs, acked, inq2, outf, deliv, need, owed, ret, tags, sweeps, dead, table, clears, faults, reach>>
 
 \* the authentication seam: which tenant, or refusal.  With a configured credentials table (C16) the
 \* outcome must be Admit / MountOf of that table.
@@ -94,7 +96,7 @@ AuthDone ==
                        /\ (Ev.ok => Ev.mount = A!MountOf(table, conn[c].user, conn[c].pass)))
      /\ conn' = Upd(conn, c, [conn[c] EXCEPT !.auth = IF Ev.ok THEN "ok" ELSE "refused", !.mount = Ev.mount])
      /\ msgs' = IF conn[c].will # "" THEN Upd(msgs, conn[c].will, [msgs[conn[c].will] EXCEPT !.mount = Ev.mount]) ELSE msgs
-  /\ UNCHANGED <<vnow, subs, logs, acked, inq2, outf, deliv, need, owed, ret, tags, sweeps, dead, table, clears>>
+  /\ UNCHANGED <<vnow, subs, logs, acked, inq2, outf, deliv, need, owed, ret, tags, sweeps, dead, table, clears, faults, reach>>
 
 \* Establish: the session is registered on its node; earlier live sessions of the same client
 \* identifier in the same tenant are displaced (C12, C17)
@@ -107,7 +109,7 @@ Register ==
                    IF x = c THEN [conn[c] EXCEPT !.reg = TRUE]
                    ELSE IF conn[x].client = conn[c].client /\ conn[x].mount = conn[c].mount /\ conn[x].phase = "live"
                         THEN [conn[x] EXCEPT !.displaced = TRUE] ELSE conn[x]]
-  /\ UNCHANGED <<vnow, subs, msgs, logs, acked, inq2, outf, deliv, need, owed, ret, tags, sweeps, dead, table, clears>>
+  /\ UNCHANGED <<vnow, subs, msgs, logs, acked, inq2, outf, deliv, need, owed, ret, tags, sweeps, dead, table, clears, faults, reach>>
 
 ConnAck ==
   /\ Ev.op = "srv.write" /\ Ev.kind = "CONNACK" /\ Ev.c \in Dom(conn) /\ conn[Ev.c].phase = "setup"
@@ -116,10 +118,10 @@ ConnAck ==
           /\ conn' = Upd(conn, Ev.c, [conn[Ev.c] EXCEPT !.phase = "live", !.connack = 0])
      ELSE /\ conn[Ev.c].auth = "refused" /\ ~conn[Ev.c].reg /\ Ev.code = 5    \* refusal: nothing was created
           /\ conn' = Upd(conn, Ev.c, [conn[Ev.c] EXCEPT !.phase = "refused", !.connack = Ev.code])
-  /\ UNCHANGED <<vnow, subs, msgs, logs, acked, inq2, outf, deliv, need, owed, ret, tags, sweeps, dead, table, clears>>
+  /\ UNCHANGED <<vnow, subs, msgs, logs, acked, inq2, outf, deliv, need, owed, ret, tags, sweeps, dead, table, clears, faults, reach>>
 
 Tick == /\ Ev.op = "time" /\ vnow' = vnow + Ev.ms
-        /\ UNCHANGED <<conn, subs, msgs, logs, acked, inq2, outf, deliv, need, owed, ret, tags, sweeps, dead, table, clears>>
+        /\ UNCHANGED <<conn, subs, msgs, logs, acked, inq2, outf, deliv, need, owed, ret, tags, sweeps, dead, table, clears, faults, reach>>
 
 \* a read timed out against the virtual clock.  The broker may give up on a client only when the client
 \* has been silent for longer than the keep-alive it asked for (how much longer is the broker's choice).
@@ -130,12 +132,12 @@ Timeout ==
      /\ (k.phase = "live" => vnow - k.lastpkt > k.ka * 1000)
      /\ (k.phase \in {"open", "setup"} => vnow - k.lastpkt >= 1000)
      /\ conn' = Upd(conn, Ev.c, [k EXCEPT !.cause = IF k.cause = "none" THEN "keepalive" ELSE k.cause])
-  /\ UNCHANGED <<vnow, subs, msgs, logs, acked, inq2, outf, deliv, need, owed, ret, tags, sweeps, dead, table, clears>>
+  /\ UNCHANGED <<vnow, subs, msgs, logs, acked, inq2, outf, deliv, need, owed, ret, tags, sweeps, dead, table, clears, faults, reach>>
 
 ClientClose ==
   /\ Ev.op = "cli.close" /\ Ev.c \in Dom(conn)
   /\ conn' = Upd(conn, Ev.c, [conn[Ev.c] EXCEPT !.cause = IF @ = "none" THEN "loss" ELSE @])
-  /\ UNCHANGED <<vnow, subs, msgs, logs, acked, inq2, outf, deliv, need, owed, ret, tags, sweeps, dead, table, clears>>
+  /\ UNCHANGED <<vnow, subs, msgs, logs, acked, inq2, outf, deliv, need, owed, ret, tags, sweeps, dead, table, clears, faults, reach>>
 
 \* ------------------------------------------------------------------ packets from established clients
 Touch(c, k) == [k EXCEPT !.lastpkt = vnow]
@@ -144,8 +146,11 @@ WithCause(k, why) == [k EXCEPT !.cause = IF @ = "none" THEN why ELSE @]
 \* releasing a message for distribution fixes who is owed a copy
 MS(x, m, S) == {s \in S : s.c = x /\ conn[x].mount = m.mount /\ T!Matches(s.f, m.t)}
 NeedFor(m, excl) == [c \in {x \in Dom(conn) \ excl : Registered(x) /\ MS(x, m, subs) # {}} |-> Cardinality(MS(c, m, subs))]
+Faulty(from, d) == <<"log", d>> \in faults \/ <<"rpc", from, d>> \in faults \/ d \in dead
+DestsOf(m) == {n \in Dom(logs) : Hosts(n, m.mount, m.t)}
 Release(p, m) == /\ msgs' = Upd(msgs, p, [m EXCEPT !.released = TRUE])
                  /\ need' = Upd(need, p, NeedFor(m, {}))
+                 /\ reach' = Upd(reach, p, {d \in DestsOf(m) : ~Faulty(conn[m.c].n, d)})   \* C14: these must be served whatever else fails
 RetainedAfter(m, p) == IF m.r THEN R!PublishNew(ret, <<m.mount, m.t>>, p) ELSE ret
 
 SendPublish ==
@@ -153,23 +158,23 @@ SendPublish ==
   /\ LET k == conn[Ev.c]
          m == [c |-> Ev.c, id |-> Ev.id, q |-> Ev.q, t |-> Ev.t, r |-> Ev.r, mount |-> k.mount, kind |-> "pub",
                released |-> FALSE, failed |-> FALSE] IN
-     IF "dropped" \in DOMAIN Ev THEN UNCHANGED <<conn, msgs, need, ret, inq2, clears>>
+     IF "dropped" \in DOMAIN Ev THEN UNCHANGED <<conn, msgs, need, ret, inq2, clears, faults, reach>>
      ELSE IF Ev.p = ""
      THEN \* an empty payload cannot be told apart from another one: only its effect on retained state is tracked
           /\ conn' = Upd(conn, Ev.c, Touch(Ev.c, k))
           /\ ret' = RetainedAfter(m, "") /\ clears' = clears \cup {<<k.mount, Ev.t>>}
-          /\ UNCHANGED <<msgs, need, inq2>>
+          /\ UNCHANGED <<msgs, need, inq2, reach>>
      ELSE IF Ev.q = 2 /\ <<Ev.c, Ev.id>> \in Dom(inq2)
      THEN \* repeated PUBLISH on an open handshake: never forwarded again; the broker may end the session
           /\ conn' = Upd(conn, Ev.c, WithCause(Touch(Ev.c, k), "protocol"))
-          /\ UNCHANGED <<msgs, need, ret, inq2, clears>>
+          /\ UNCHANGED <<msgs, need, ret, inq2, clears, faults, reach>>
      ELSE /\ Ev.p \notin Dom(msgs)
           /\ conn' = Upd(conn, Ev.c, Touch(Ev.c, k))
           /\ ret' = RetainedAfter(m, Ev.p) /\ UNCHANGED clears
           /\ IF Ev.q = 2
-             THEN /\ msgs' = Upd(msgs, Ev.p, m) /\ inq2' = Upd(inq2, <<Ev.c, Ev.id>>, Ev.p) /\ UNCHANGED need
+             THEN /\ msgs' = Upd(msgs, Ev.p, m) /\ inq2' = Upd(inq2, <<Ev.c, Ev.id>>, Ev.p) /\ UNCHANGED <<need, reach>>
              ELSE /\ Release(Ev.p, m) /\ UNCHANGED inq2
-  /\ UNCHANGED <<vnow, subs, logs, acked, outf, deliv, owed, tags, sweeps, dead, table>>
+  /\ UNCHANGED <<vnow, subs, logs, acked, outf, deliv, owed, tags, sweeps, dead, table, faults>>
 
 AddOwed(o, c, pairs) ==   \* pairs: set of <<<<mount,t>>, payload>>
   LET cur == Get(o, c, <<>>)
@@ -190,12 +195,12 @@ SendSubscribe ==
   /\ IF "dropped" \in DOMAIN Ev THEN UNCHANGED <<subs, owed>>
      ELSE /\ subs' = SubsAfter(subs, Ev.c, Ev.fs)
           /\ owed' = OwedAfter(owed, Ev.c, conn[Ev.c].mount, Ev.fs)     \* retained replay, once per matching topic and filter
-  /\ UNCHANGED <<vnow, msgs, logs, acked, inq2, outf, deliv, need, ret, tags, sweeps, dead, table, clears>>
+  /\ UNCHANGED <<vnow, msgs, logs, acked, inq2, outf, deliv, need, ret, tags, sweeps, dead, table, clears, faults, reach>>
 SendUnsubscribe ==
   /\ Ev.op = "cli.send" /\ Ev.kind = "UNSUBSCRIBE" /\ Live(Ev.c)
   /\ conn' = Upd(conn, Ev.c, Touch(Ev.c, conn[Ev.c]))
   /\ subs' = IF "dropped" \in DOMAIN Ev THEN subs ELSE {x \in subs : ~(x.c = Ev.c /\ x.f \in {Ev.fs[i].f : i \in 1..Len(Ev.fs)})}
-  /\ UNCHANGED <<vnow, msgs, logs, acked, inq2, outf, deliv, need, owed, ret, tags, sweeps, dead, table, clears>>
+  /\ UNCHANGED <<vnow, msgs, logs, acked, inq2, outf, deliv, need, owed, ret, tags, sweeps, dead, table, clears, faults, reach>>
 SendOther ==
   /\ Ev.op = "cli.send" /\ Ev.kind \in {"PUBACK", "PUBREC", "PUBREL", "PUBCOMP", "PINGREQ", "DISCONNECT", "RAW", "CONNECT"}
   /\ Ev.c \in Dom(conn) /\ ~(Ev.kind = "CONNECT" /\ conn[Ev.c].phase = "open")
@@ -207,12 +212,12 @@ SendOther ==
           [] Ev.kind = "CONNECT" -> WithCause(k, "protocol")
           [] Ev.kind = "PINGREQ" /\ conn[Ev.c].displaced -> [WithCause(k, "displaced") EXCEPT !.disc = TRUE]
           [] OTHER -> k)
-  /\ UNCHANGED <<vnow, subs, msgs, logs, acked, inq2, outf, deliv, need, owed, ret, tags, sweeps, dead, table, clears>>
+  /\ UNCHANGED <<vnow, subs, msgs, logs, acked, inq2, outf, deliv, need, owed, ret, tags, sweeps, dead, table, clears, faults, reach>>
 \* packets sent on a connection that never got a session (refused, or before CONNECT): offender only
 SendStray ==
   /\ Ev.op = "cli.send" /\ Ev.kind \in {"PUBLISH", "SUBSCRIBE", "UNSUBSCRIBE"} /\ Ev.c \in Dom(conn) /\ ~Live(Ev.c)
   /\ conn' = Upd(conn, Ev.c, WithCause(conn[Ev.c], "protocol"))
-  /\ UNCHANGED <<vnow, subs, msgs, logs, acked, inq2, outf, deliv, need, owed, ret, tags, sweeps, dead, table, clears>>
+  /\ UNCHANGED <<vnow, subs, msgs, logs, acked, inq2, outf, deliv, need, owed, ret, tags, sweeps, dead, table, clears, faults, reach>>
 
 \* ------------------------------------------------------------------ distribution
 \* a message reaches a node's log: only released messages, only where a matching subscription is hosted,
@@ -233,7 +238,7 @@ LogAppend ==
                      /\ logs' = Upd(logs, Ev.n, Append(logs[Ev.n], Ev.p))
                      /\ UNCHANGED msgs
                 ELSE /\ msgs' = Upd(msgs, Ev.p, [m EXCEPT !.failed = TRUE]) /\ UNCHANGED logs
-  /\ UNCHANGED <<vnow, conn, subs, acked, inq2, outf, deliv, need, owed, ret, tags, sweeps, dead, table, clears>>
+  /\ UNCHANGED <<vnow, conn, subs, acked, inq2, outf, deliv, need, owed, ret, tags, sweeps, dead, table, clears, faults, reach>>
 
 \* acknowledgement to the publisher: only after every destination's log has the message
 AckInbound ==
@@ -243,11 +248,11 @@ AckInbound ==
        /\ msgs[p].q = (IF Ev.kind = "PUBACK" THEN 1 ELSE 2)
        /\ msgs[p].released /\ StoredEverywhere(p)
        /\ acked' = acked \cup {p}
-  /\ UNCHANGED <<vnow, conn, subs, msgs, logs, inq2, outf, deliv, need, owed, ret, tags, sweeps, dead, table, clears>>
+  /\ UNCHANGED <<vnow, conn, subs, msgs, logs, inq2, outf, deliv, need, owed, ret, tags, sweeps, dead, table, clears, faults, reach>>
 PubRecInbound ==
   /\ Ev.op = "srv.write" /\ Ev.kind = "PUBREC" /\ Live(Ev.c)
   /\ <<Ev.c, Ev.id>> \in Dom(inq2)
-  /\ UNCHANGED <<vnow, conn, subs, msgs, logs, acked, inq2, outf, deliv, need, owed, ret, tags, sweeps, dead, table, clears>>
+  /\ UNCHANGED <<vnow, conn, subs, msgs, logs, acked, inq2, outf, deliv, need, owed, ret, tags, sweeps, dead, table, clears, faults, reach>>
 
 \* ------------------------------------------------------------------ the in-flight table (seam)
 NodeIds(n) == {k[2] : k \in {x \in Dom(outf) : conn[x[1]].n = n}}
@@ -264,7 +269,7 @@ InsertSeam ==
                   /\ Ev.id \notin NodeIds(conn[c].n)                                        \* C06: differs from every outstanding id
                   /\ outf' = Upd(outf, key, [p |-> "", q |-> IF Ev.kind = "pub1" THEN 1 ELSE 2, phase |-> "pub", due |-> FALSE,
                                               tag |-> Ev.tag, d |-> Ev.d])
-  /\ UNCHANGED <<vnow, conn, subs, msgs, logs, acked, inq2, deliv, need, owed, ret, sweeps, dead, table, clears>>
+  /\ UNCHANGED <<vnow, conn, subs, msgs, logs, acked, inq2, deliv, need, owed, ret, sweeps, dead, table, clears, faults, reach>>
 
 Callback ==
   /\ Ev.op = "ack.cb" /\ Ev.tag \in Dom(tags)
@@ -275,34 +280,34 @@ Callback ==
         THEN \* inbound QoS 2 handshake: PUBREL arrived (release for forwarding, exactly once) or it timed out (dropped)
              /\ key \in Dom(inq2)
              /\ inq2' = Del(inq2, {key})
-             /\ IF Ev.expired THEN UNCHANGED <<msgs, need>>
+             /\ IF Ev.expired THEN UNCHANGED <<msgs, need, reach>>
                 ELSE Release(inq2[key], msgs[inq2[key]])
              /\ UNCHANGED outf
         ELSE /\ key \in Dom(outf) /\ outf[key].tag = Ev.tag
-             /\ UNCHANGED <<inq2, msgs, need>>
+             /\ UNCHANGED <<inq2, msgs, need, reach>>
              /\ outf' =
                  IF ~Registered(c) THEN Del(outf, {key})                                   \* session gone: nothing further, id released
                  ELSE IF Ev.expired THEN Upd(outf, key, [outf[key] EXCEPT !.due = TRUE])    \* must be sent again, same identifier
                  ELSE IF tg.kind = "pub2" THEN Upd(outf, key, [outf[key] EXCEPT !.phase = "rel", !.due = TRUE])
                  ELSE Del(outf, {key})                                                     \* PUBACK / PUBCOMP: completed
-  /\ UNCHANGED <<vnow, conn, subs, logs, acked, deliv, owed, ret, dead, table, clears>>
+  /\ UNCHANGED <<vnow, conn, subs, logs, acked, deliv, owed, ret, dead, table, clears, faults>>
 
 SweepCall ==
   /\ Ev.op = "ack.expire.call"
   /\ sweeps' = Upd(sweeps, <<Ev.n, Ev.now>>, {t \in Dom(tags) : conn[tags[t].key[1]].n = Ev.n /\ Ev.now >= tags[t].d + 1000})
-  /\ UNCHANGED <<vnow, conn, subs, msgs, logs, acked, inq2, outf, deliv, need, owed, ret, tags, dead, table, clears>>
+  /\ UNCHANGED <<vnow, conn, subs, msgs, logs, acked, inq2, outf, deliv, need, owed, ret, tags, dead, table, clears, faults, reach>>
 SweepRet ==
   /\ Ev.op = "ack.expire.ret" /\ <<Ev.n, Ev.now>> \in Dom(sweeps)
   /\ sweeps[<<Ev.n, Ev.now>>] = {}                                   \* every entry past its deadline (to the second) was fired
   /\ sweeps' = Del(sweeps, {<<Ev.n, Ev.now>>})
-  /\ UNCHANGED <<vnow, conn, subs, msgs, logs, acked, inq2, outf, deliv, need, owed, ret, tags, dead, table, clears>>
+  /\ UNCHANGED <<vnow, conn, subs, msgs, logs, acked, inq2, outf, deliv, need, owed, ret, tags, dead, table, clears, faults, reach>>
 
 \* ------------------------------------------------------------------ deliveries to subscribers
 DeliverEmpty ==
   /\ Ev.op = "srv.write" /\ Ev.kind = "PUBLISH" /\ Ev.p = "" /\ Registered(Ev.c) /\ Ev.q = 0
   /\ <<conn[Ev.c].mount, Ev.t>> \in clears /\ ~Ev.r
   /\ \E x \in subs : x.c = Ev.c /\ T!Matches(x.f, Ev.t)
-  /\ UNCHANGED <<vnow, conn, subs, msgs, logs, acked, inq2, outf, deliv, need, owed, ret, tags, sweeps, dead, table, clears>>
+  /\ UNCHANGED <<vnow, conn, subs, msgs, logs, acked, inq2, outf, deliv, need, owed, ret, tags, sweeps, dead, table, clears, faults, reach>>
 DeliverPublish ==
   /\ Ev.op = "srv.write" /\ Ev.kind = "PUBLISH" /\ Ev.c \in Dom(conn) /\ Ev.p # ""
   /\ Registered(Ev.c)                                                       \* nothing is written to an ended session
@@ -327,13 +332,13 @@ DeliverPublish ==
                      /\ Deliv(c, Ev.p) < Max(NMatch(c, Ev.p), Get(Get(need, Ev.p, <<>>), c, 0))   \* C01: once per matching subscription
                      /\ deliv' = Upd(deliv, <<c, Ev.p>>, Deliv(c, Ev.p) + 1)
                      /\ UNCHANGED owed
-  /\ UNCHANGED <<vnow, conn, subs, msgs, logs, acked, inq2, need, ret, tags, sweeps, dead, table, clears>>
+  /\ UNCHANGED <<vnow, conn, subs, msgs, logs, acked, inq2, need, ret, tags, sweeps, dead, table, clears, faults, reach>>
 DeliverPubRel ==
   /\ Ev.op = "srv.write" /\ Ev.kind = "PUBREL" /\ Registered(Ev.c)
   /\ LET key == <<Ev.c, Ev.id>> IN
      /\ key \in Dom(outf) /\ outf[key].phase = "rel" /\ outf[key].due
      /\ outf' = Upd(outf, key, [outf[key] EXCEPT !.due = FALSE])
-  /\ UNCHANGED <<vnow, conn, subs, msgs, logs, acked, inq2, deliv, need, owed, ret, tags, sweeps, dead, table, clears>>
+  /\ UNCHANGED <<vnow, conn, subs, msgs, logs, acked, inq2, deliv, need, owed, ret, tags, sweeps, dead, table, clears, faults, reach>>
 OtherWrite ==
   /\ Ev.op = "srv.write" /\ Ev.kind \in {"SUBACK", "UNSUBACK", "PINGRESP"} /\ Registered(Ev.c)
   /\ (Ev.kind = "PINGRESP" => ~conn[Ev.c].displaced)                        \* C12: a displaced session is not served at its next ping
@@ -352,23 +357,23 @@ Unregister ==
      \* session is not in C13's list of causes: publishing the will then is allowed, not required.
      /\ IF k.will # "" /\ ~k.disc
         THEN /\ msgs' = Upd(msgs, k.will, [msgs[k.will] EXCEPT !.released = TRUE])
-             /\ need' = Upd(need, k.will, NeedFor(msgs[k.will], {c}))
+             /\ need' = Upd(need, k.will, NeedFor(msgs[k.will], {c})) /\ UNCHANGED reach
              /\ ret' = RetainedAfter(msgs[k.will], k.will)
         ELSE IF k.will # "" /\ k.cause = "displaced"
-        THEN /\ msgs' = Upd(msgs, k.will, [msgs[k.will] EXCEPT !.released = TRUE]) /\ UNCHANGED <<need, ret>>
-        ELSE UNCHANGED <<msgs, need, ret>>
-  /\ UNCHANGED <<vnow, logs, acked, inq2, deliv, tags, sweeps, dead, table, clears>>
+        THEN /\ msgs' = Upd(msgs, k.will, [msgs[k.will] EXCEPT !.released = TRUE]) /\ UNCHANGED <<need, ret, reach>>
+        ELSE UNCHANGED <<msgs, need, ret, reach>>
+  /\ UNCHANGED <<vnow, logs, acked, inq2, deliv, tags, sweeps, dead, table, clears, faults>>
 TeardownDone ==
   /\ Ev.op = "shutdown.done" /\ KnownS(Ev.s)
   /\ LET c == SC(Ev.s) IN
      /\ ~conn[c].reg /\ conn[c].phase = "ending"
      /\ conn' = Upd(conn, c, [conn[c] EXCEPT !.phase = "ended"])
-  /\ UNCHANGED <<vnow, subs, msgs, logs, acked, inq2, outf, deliv, need, owed, ret, tags, sweeps, dead, table, clears>>
+  /\ UNCHANGED <<vnow, subs, msgs, logs, acked, inq2, outf, deliv, need, owed, ret, tags, sweeps, dead, table, clears, faults, reach>>
 Close ==
   /\ Ev.op = "srv.close" /\ Ev.c \in Dom(conn)
   /\ conn[Ev.c].phase \in {"open", "setup", "refused", "ending", "ended"}    \* never a live session's connection
   /\ conn' = Upd(conn, Ev.c, [conn[Ev.c] EXCEPT !.closed = TRUE])
-  /\ UNCHANGED <<vnow, subs, msgs, logs, acked, inq2, outf, deliv, need, owed, ret, tags, sweeps, dead, table, clears>>
+  /\ UNCHANGED <<vnow, subs, msgs, logs, acked, inq2, outf, deliv, need, owed, ret, tags, sweeps, dead, table, clears, faults, reach>>
 
 \* the hosting node fails: its sessions are gone; wills of those that never sent DISCONNECT are released
 PeerFail ==
@@ -382,8 +387,16 @@ PeerFail ==
         /\ msgs' = [p \in Dom(msgs) |-> IF p \in ws THEN [msgs[p] EXCEPT !.released = TRUE] ELSE msgs[p]]
         /\ need' = [p \in Dom(need) \cup ws |->
                       IF p \in ws THEN [c \in {x \in Dom(conn) \ gone : Registered(x) /\ NMatch(x, p) > 0} |-> NMatch(c, p)] ELSE need[p]]
+        /\ UNCHANGED reach
   /\ outf' = Del(outf, {k \in Dom(outf) : conn[k[1]].n = Ev.n})
-  /\ UNCHANGED <<vnow, logs, acked, inq2, deliv, owed, ret, tags, sweeps, table, clears>>
+  /\ UNCHANGED <<vnow, logs, acked, inq2, deliv, owed, ret, tags, sweeps, table, clears, faults>>
+
+Inject ==
+  /\ Ev.op = "inject"
+  /\ faults' = IF Ev.what = "log.append"
+               THEN (IF Ev.k > 0 THEN faults \cup {<<"log", Ev.n>>} ELSE faults \ {<<"log", Ev.n>>})
+               ELSE (IF Ev.on THEN faults \cup {<<"rpc", Ev.from, Ev.to>>} ELSE faults \ {<<"rpc", Ev.from, Ev.to>>})
+  /\ UNCHANGED <<vnow, conn, subs, msgs, logs, acked, inq2, outf, deliv, need, owed, ret, tags, sweeps, dead, table, clears, reach>>
 
 \* ------------------------------------------------------------------ probes and quiescence
 LiveNodes == Dom(logs) \ dead
@@ -416,6 +429,8 @@ Quiescent ==
   /\ \A p \in Dom(need) : (msgs[p].kind = "will" /\ ~msgs[p].failed) =>
         \A c \in Dom(need[p]) : StillOwed(c, p) => InLog(conn[c].n, p)        \* C13: the will was actually published
   /\ \A p \in acked : \A c \in Dom(Get(need, p, <<>>)) : StillOwed(c, p) => Deliv(c, p) >= need[p][c]     \* C02
+  \* C14: every destination that could be reached has the message, whatever happened to the others
+  /\ \A p \in Dom(reach) : \A d \in reach[p] : InLog(d, p)
   \* C07: every owed retained replay arrived
   /\ \A c \in Dom(owed) : Registered(c) => \A p \in Dom(owed[c]) : owed[c][p] = 0
   \* C03: nothing that must be retransmitted is pending
@@ -425,7 +440,7 @@ Quiescent ==
   /\ \A c \in Dom(conn) : conn[c].phase # "ending"
 
 Ignored == Ev.op \in {"log.consume", "log.get", "writer.done", "publish.done", "gossip.out", "gossip.deliver", "conn.deadline", "rpc.call",
-                      "inject", "ack.ack.call", "ack.ack.ret", "peer.leave.notified", "purge.waited"}
+                      "ack.ack.call", "ack.ack.ret", "peer.leave.notified", "purge.waited"}
 
 Step ==
   /\ l <= Len(Trace) /\ l' = l + 1
@@ -433,11 +448,11 @@ Step ==
      \/ SendPublish \/ SendSubscribe \/ SendUnsubscribe \/ SendOther \/ SendStray
      \/ LogAppend \/ AckInbound \/ PubRecInbound \/ InsertSeam \/ Callback \/ SweepCall \/ SweepRet
      \/ DeliverPublish \/ DeliverEmpty \/ DeliverPubRel
-     \/ (OtherWrite /\ UNCHANGED <<conn, vnow, subs, msgs, logs, acked, inq2, outf, deliv, need, owed, ret, tags, sweeps, dead, table, clears>>)
-     \/ Unregister \/ TeardownDone \/ Close \/ PeerFail
-     \/ (Probe /\ UNCHANGED <<conn, vnow, subs, msgs, logs, acked, inq2, outf, deliv, need, owed, ret, tags, sweeps, dead, table, clears>>)
-     \/ (Quiescent /\ UNCHANGED <<conn, vnow, subs, msgs, logs, acked, inq2, outf, deliv, need, owed, ret, tags, sweeps, dead, table, clears>>)
-     \/ (Ignored /\ UNCHANGED <<conn, vnow, subs, msgs, logs, acked, inq2, outf, deliv, need, owed, ret, tags, sweeps, dead, table, clears>>)
+     \/ (OtherWrite /\ UNCHANGED <<conn, vnow, subs, msgs, logs, acked, inq2, outf, deliv, need, owed, ret, tags, sweeps, dead, table, clears, faults, reach>>)
+     \/ Unregister \/ TeardownDone \/ Close \/ PeerFail \/ Inject
+     \/ (Probe /\ UNCHANGED <<conn, vnow, subs, msgs, logs, acked, inq2, outf, deliv, need, owed, ret, tags, sweeps, dead, table, clears, faults, reach>>)
+     \/ (Quiescent /\ UNCHANGED <<conn, vnow, subs, msgs, logs, acked, inq2, outf, deliv, need, owed, ret, tags, sweeps, dead, table, clears, faults, reach>>)
+     \/ (Ignored /\ UNCHANGED <<conn, vnow, subs, msgs, logs, acked, inq2, outf, deliv, need, owed, ret, tags, sweeps, dead, table, clears, faults, reach>>)
 TSpec == TInit /\ [][Step]_vars
 HighWater == TLCSet(1, IF TLCGet(1) > l THEN TLCGet(1) ELSE l)
 Accepted == IF TLCGet(1) - 1 = Len(Trace) THEN PrintT("TRACE_ACCEPTED")
